@@ -396,6 +396,10 @@ func (f *Flooder) HandleRouteWithdraw(
 	return true
 }
 
+// maxRoutesPerMessage is the number of routes one ROUTE_ADVERTISE or
+// ROUTE_WITHDRAW can carry: the wire format stores the route count in one byte.
+const maxRoutesPerMessage = 255
+
 // floodAdvertisementEncrypted sends a route advertisement to all peers except the source.
 // For plaintext paths, it prepends the local agent ID to the path before forwarding.
 // For encrypted paths (legacy), it forwards as-is since we can't modify encrypted data.
@@ -503,8 +507,6 @@ func (f *Flooder) AnnounceLocalRoutes() {
 	localDomainRoutes := f.routeMgr.GetLocalDomainRoutes()
 	localForwardRoutes := f.routeMgr.GetLocalForwardRoutes()
 
-	seq := f.routeMgr.IncrementSequence()
-
 	// Convert to protocol routes (CIDR + domain + forward + agent presence)
 	routes := make([]protocol.Route, 0, len(localRoutes)+len(localDomainRoutes)+len(localForwardRoutes)+1)
 
@@ -562,29 +564,39 @@ func (f *Flooder) AnnounceLocalRoutes() {
 		displayName = ""
 	}
 
-	// Build advertisement
-	adv := &protocol.RouteAdvertise{
-		OriginAgent:       f.localID,
-		OriginDisplayName: displayName,
-		Sequence:          seq,
-		Routes:            routes,
-		Path:              path,    // Keep for backwards compat
-		EncPath:           encPath, // Encrypted path for wire format
-		SeenBy:            []identity.AgentID{f.localID},
-	}
+	// The wire format counts the routes of one advertisement in a single byte,
+	// so a larger set is announced as several advertisements, each with its
+	// own sequence number (receivers add routes per advertisement).
+	for start := 0; start < len(routes); start += maxRoutesPerMessage {
+		end := start + maxRoutesPerMessage
+		if end > len(routes) {
+			end = len(routes)
+		}
 
-	frame := &protocol.Frame{
-		Type:     protocol.FrameRouteAdvertise,
-		StreamID: protocol.ControlStreamID,
-		Payload:  adv.Encode(),
-	}
+		// Build advertisement
+		adv := &protocol.RouteAdvertise{
+			OriginAgent:       f.localID,
+			OriginDisplayName: displayName,
+			Sequence:          f.routeMgr.IncrementSequence(),
+			Routes:            routes[start:end],
+			Path:              path,    // Keep for backwards compat
+			EncPath:           encPath, // Encrypted path for wire format
+			SeenBy:            []identity.AgentID{f.localID},
+		}
 
-	// Send to all peers
-	for _, peerID := range f.sender.GetPeerIDs() {
-		if err := f.sender.SendToPeer(peerID, frame); err != nil {
-			f.logger.Debug("failed to announce local routes",
-				logging.KeyPeerID, peerID.ShortString(),
-				logging.KeyError, err)
+		frame := &protocol.Frame{
+			Type:     protocol.FrameRouteAdvertise,
+			StreamID: protocol.ControlStreamID,
+			Payload:  adv.Encode(),
+		}
+
+		// Send to all peers
+		for _, peerID := range f.sender.GetPeerIDs() {
+			if err := f.sender.SendToPeer(peerID, frame); err != nil {
+				f.logger.Debug("failed to announce local routes",
+					logging.KeyPeerID, peerID.ShortString(),
+					logging.KeyError, err)
+			}
 		}
 	}
 }
@@ -596,31 +608,37 @@ func (f *Flooder) WithdrawLocalRoutes() {
 		return
 	}
 
-	seq := f.routeMgr.IncrementSequence()
-
 	routes := make([]protocol.Route, 0, len(localRoutes))
 	for _, lr := range localRoutes {
 		routes = append(routes, ipNetToProtocolRoute(lr.Network, lr.Metric))
 	}
 
-	withdraw := &protocol.RouteWithdraw{
-		OriginAgent: f.localID,
-		Sequence:    seq,
-		Routes:      routes,
-		SeenBy:      []identity.AgentID{f.localID},
-	}
+	// One withdrawal carries at most maxRoutesPerMessage routes (one-byte count).
+	for start := 0; start < len(routes); start += maxRoutesPerMessage {
+		end := start + maxRoutesPerMessage
+		if end > len(routes) {
+			end = len(routes)
+		}
 
-	frame := &protocol.Frame{
-		Type:     protocol.FrameRouteWithdraw,
-		StreamID: protocol.ControlStreamID,
-		Payload:  withdraw.Encode(),
-	}
+		withdraw := &protocol.RouteWithdraw{
+			OriginAgent: f.localID,
+			Sequence:    f.routeMgr.IncrementSequence(),
+			Routes:      routes[start:end],
+			SeenBy:      []identity.AgentID{f.localID},
+		}
 
-	for _, peerID := range f.sender.GetPeerIDs() {
-		if err := f.sender.SendToPeer(peerID, frame); err != nil {
-			f.logger.Debug("failed to withdraw local routes",
-				logging.KeyPeerID, peerID.ShortString(),
-				logging.KeyError, err)
+		frame := &protocol.Frame{
+			Type:     protocol.FrameRouteWithdraw,
+			StreamID: protocol.ControlStreamID,
+			Payload:  withdraw.Encode(),
+		}
+
+		for _, peerID := range f.sender.GetPeerIDs() {
+			if err := f.sender.SendToPeer(peerID, frame); err != nil {
+				f.logger.Debug("failed to withdraw local routes",
+					logging.KeyPeerID, peerID.ShortString(),
+					logging.KeyError, err)
+			}
 		}
 	}
 }
@@ -691,8 +709,6 @@ func (f *Flooder) SendFullTable(peerID identity.AgentID) {
 
 	// Send a separate advertisement for each origin
 	for originAgent := range allOrigins {
-		seq := f.routeMgr.IncrementSequence()
-
 		cidrRoutes := byOrigin[originAgent]
 		agentPresenceRoutes := agentByOrigin[originAgent]
 		forwardOriginRoutes := forwardByOrigin[originAgent]
@@ -759,25 +775,33 @@ func (f *Flooder) SendFullTable(peerID identity.AgentID) {
 			}
 		}
 
-		adv := &protocol.RouteAdvertise{
-			OriginAgent:       originAgent,
-			OriginDisplayName: originDisplayName,
-			Sequence:          seq,
-			Routes:            routes,
-			Path:              path,
-			SeenBy:            []identity.AgentID{f.localID},
-		}
+		// One advertisement carries at most maxRoutesPerMessage routes (one-byte count).
+		for start := 0; start < len(routes); start += maxRoutesPerMessage {
+			end := start + maxRoutesPerMessage
+			if end > len(routes) {
+				end = len(routes)
+			}
 
-		frame := &protocol.Frame{
-			Type:     protocol.FrameRouteAdvertise,
-			StreamID: protocol.ControlStreamID,
-			Payload:  adv.Encode(),
-		}
+			adv := &protocol.RouteAdvertise{
+				OriginAgent:       originAgent,
+				OriginDisplayName: originDisplayName,
+				Sequence:          f.routeMgr.IncrementSequence(),
+				Routes:            routes[start:end],
+				Path:              path,
+				SeenBy:            []identity.AgentID{f.localID},
+			}
 
-		if err := f.sender.SendToPeer(peerID, frame); err != nil {
-			f.logger.Debug("failed to send full routing table",
-				logging.KeyPeerID, peerID.ShortString(),
-				logging.KeyError, err)
+			frame := &protocol.Frame{
+				Type:     protocol.FrameRouteAdvertise,
+				StreamID: protocol.ControlStreamID,
+				Payload:  adv.Encode(),
+			}
+
+			if err := f.sender.SendToPeer(peerID, frame); err != nil {
+				f.logger.Debug("failed to send full routing table",
+					logging.KeyPeerID, peerID.ShortString(),
+					logging.KeyError, err)
+			}
 		}
 	}
 }
